@@ -13,11 +13,12 @@ TRUSTED = [
 ]
 ASSUMPTIONS = ['N3: the light area of four modules beside the 1:1:3:1:1 pattern must lie inside the symbol; N4 at an exact 5% boundary: either reading accepted']
 MANIFEST = {
-    'technique': 'Lean 4: mask canvases proved equal to the standard formulas (C02), mask application proved exact (C18), selection-loop lemmas; penalty optimality by differential runs against a reference scorer',
-    'text': ('Explicit masks: the canvases are the standard formulas on every module (kernel evaluation, Props/C02) and Mask applies exactly that pattern to exactly the non-function modules '
-             '(Props/C18), for every symbol size. Automatic masking: Props/C10.lean proves the selection loop returns an index attaining the minimum (maximum for Micro QR) of the scores it computed; '
-             'that those scores are the standard\'s penalty is checked against a reference scorer on finished symbols for every configuration.'),
-    'note': 'Trusted: Lean kernel; python scorer; known findings about the scoring functions are recorded in known-findings.txt.',
+    'technique': 'Lean 4: the automatic mask of the QR / Micro QR models is the first argmin / argmax of the scores they compute and the symbol equals the explicit-mask symbol; mask canvases = standard formulas (C02), Mask exact (C18); the scores themselves vs a reference scorer by differential runs',
+    'text': ('QRV/Props/C10.lean proves: with Mask=auto the QR model emits exactly the symbol it emits for an explicit pattern m in 0..7, and m is the first pattern attaining the MINIMUM of the eight penalty '
+             'scores computed on the candidate symbols with format information and dark module in place (qr_auto_is_argmin); the Micro QR loop returns the first pattern attaining the MAXIMUM edge score. '
+             'Explicit masks: the canvases are the standard formulas on every module (kernel evaluation, C02) and Mask applies exactly that pattern to exactly the non-function modules (C18). '
+             'That the computed scores are the ISO penalty N1-N4 is compared with a reference scorer on finished symbols (optimal under at least one admissible reading of N3/N4).'),
+    'note': 'Trusted: Lean kernel; python scorer; pointOnesCount uses float64 in Go and Lean Float in the model (opaque to proofs; irrelevant to the argmin theorem).',
 }
 
 
